@@ -13,11 +13,15 @@ import billiard.sharedctypes as sc
 from harness import targets
 
 
-def counters(method, nproc, n):
+def counters(method, nproc, n, held=False):
+    """held: the parent holds the value's lock while the children are started (and for a while
+    after) and makes one locked update of its own in that time"""
     ctx = billiard.get_context(method)
     v = ctx.Value('i', 0)
     seq = ctx.RawValue('i', 0) if hasattr(ctx, 'RawValue') else sc.RawValue('i', 0)
     ps, conns = [], []
+    if held:
+        v.get_lock().acquire()
     for _ in range(nproc):
         r, w = ctx.Pipe(duplex=False)
         p = ctx.Process(target=targets.locked_incr, args=(v, seq, n, w))
@@ -26,6 +30,14 @@ def counters(method, nproc, n):
         ps.append(p)
         conns.append(r)
     logs = []
+    if held:
+        time.sleep(0.3)                   # the children are up and want the lock
+        r0, s0 = v.value, seq.value
+        seq.value = s0 + 1
+        time.sleep(0.05)
+        v.value = r0 + 1
+        logs.append((s0, r0, r0 + 1))
+        v.get_lock().release()
     for r in conns:
         if not r.poll(60):
             raise RuntimeError('child did not report')
@@ -36,7 +48,8 @@ def counters(method, nproc, n):
     obs = [{'act': {'name': 'Init'}, 'state': {'val': 0}}]
     for s, rd, wr in logs:
         obs.append({'act': {'name': 'Incr', 'read': rd, 'written': wr, 'seq': s}, 'state': {'val': wr}})
-    return {'method': method, 'nproc': nproc, 'n': n, 'final': v.value, 'obs': obs}
+    return {'method': method + ('+held' if held else ''), 'nproc': nproc, 'n': n, 'final': v.value,
+            'expected': nproc * n + (1 if held else 0), 'obs': obs}
 
 
 def visible(method):
@@ -54,6 +67,14 @@ def visible(method):
         time.sleep(0.001)
     p.join(10)
     return {'method': method, 'child_saw': saw, 'parent_saw': arr[1]}
+
+
+def _nonzero(seq, zero, attr=None):
+    """some element differs from zero (memory that does not even decode counts as non-zero)"""
+    try:
+        return any((getattr(x, attr) if attr else x) != zero for x in seq)
+    except ValueError:
+        return True
 
 
 def type_sweep():
@@ -74,8 +95,8 @@ def type_sweep():
             gc.collect()
             z = sc.RawValue(code)
             zero = {'c': b'\x00', 'u': '\x00'}.get(code, 0)
-            if z.value != zero:
-                bad.append('RawValue(%r) not zero-filled: %r' % (code, z.value))
+            if _nonzero([z], zero, attr='value'):
+                bad.append('RawValue(%r) not zero-filled' % (code,))
             v = sc.RawValue(code, val)
             if v.value != val and not (code == 'f'):
                 bad.append('RawValue(%r, %r) reads %r' % (code, val, v.value))
@@ -90,14 +111,14 @@ def type_sweep():
                 del junk
                 gc.collect()
                 a = sc.RawArray(code, ln)
-                if any(x != zero for x in a):
+                if _nonzero(a, zero):
                     bad.append('RawArray(%r, %d) not zero-filled' % (code, ln))
                 b = sc.RawArray(code, [val] * ln)
                 if list(b) != [val] * ln and code != 'f':
                     bad.append('RawArray(%r, init) wrong' % (code,))
                 if ln:
                     b[0] = zero
-                    if any(x != zero for x in a):
+                    if _nonzero(a, zero):
                         bad.append('RawArray(%r) objects share storage' % (code,))
     return {'cases': n, 'bad': bad}
 
@@ -108,6 +129,7 @@ def main():
     res = {'counters': [], 'visibility': [], 'types': type_sweep()}
     for method in ('fork', 'spawn', 'forkserver'):
         res['counters'].append(counters(method, 4 if thorough else 3, 300 if thorough else 100))
+        res['counters'].append(counters(method, 3, 100, held=True))
         res['visibility'].append(visible(method))
     with open(out + '.tmp', 'w') as fh:
         json.dump(res, fh)
